@@ -1,6 +1,10 @@
 """C18: generators emit well-formed instances within documented bounds.  Every real `_generate` runs with the
 sampler stubs of symtorch (each `rand / randint / Uniform.sample / randperm / multinomial` returns fresh solver
-variables constrained to the documented support), i.e. over EVERY sampler outcome at the given sizes."""
+variables constrained to the documented support), i.e. over EVERY sampler outcome at the given sizes.
+
+The properties are written once (`props`) against the scalar API, so the same predicates decide the symbolic run
+and -- with a rounding tolerance -- the concrete instance produced by the real torch generator when a counterexample's
+sampler values are replayed (vf/torch_side/gen_side.py)."""
 from __future__ import annotations
 
 import math
@@ -10,12 +14,49 @@ import z3
 
 from symtorch import dist as DS
 from symtorch import explore, world
+from symtorch import scalar as SC
 from symtorch import tensor as T
-from symtorch.scalar import XR, _bool, _real, is_sym, s_and, s_eq, s_ge, s_gt, s_le, s_lt, s_not, s_or
+from symtorch.scalar import XR, _bool, _real, is_sym, s_and, s_not, s_or
 from symtorch.tdict import TensorDict
 
 from . import core
 from .oracle import all_, any_
+
+TOL = [0.0]  # > 0 in concrete (replay) mode: comparisons of float32 data against real-arithmetic references
+
+
+def _c(a, b):
+    return not is_sym(a) and not is_sym(b) and not isinstance(a, XR) and not isinstance(b, XR) and TOL[0] > 0
+
+
+def _slack(a, b):
+    return TOL[0] * (1 + abs(float(a)) + abs(float(b)))
+
+
+def eq(a, b):
+    return abs(float(a) - float(b)) <= _slack(a, b) if _c(a, b) else T.s_eq(a, b)
+
+
+def le(a, b):
+    return float(a) <= float(b) + _slack(a, b) if _c(a, b) else T.s_le(a, b)
+
+
+def lt(a, b):
+    return float(a) < float(b) + _slack(a, b) if _c(a, b) else T.s_lt(a, b)
+
+
+def ge(a, b):
+    return le(b, a)
+
+
+def gt(a, b):
+    return lt(b, a)
+
+
+def norm2(dx, dy):
+    if not is_sym(dx) and not is_sym(dy):
+        return math.hypot(float(dx), float(dy))
+    return DS.norm2(dx, dy)
 
 
 def _vals(t):
@@ -23,11 +64,184 @@ def _vals(t):
 
 
 def _in(t, lo, hi, strict_hi=False):
-    return all_([s_and(s_ge(x, lo), (s_lt(x, hi) if strict_hi else s_le(x, hi))) for x in _vals(t)])
+    return all_([s_and(ge(x, lo), (lt(x, hi) if strict_hi else le(x, hi))) for x in _vals(t)])
 
 
 def _shape(td, key, shape, dtype=None):
     return key in td.keys() and tuple(td[key].shape) == tuple(shape) and (dtype is None or td[key].dtype is dtype)
+
+
+GENERATORS = {
+    "tsp": ("rl4co.envs.routing.tsp.generator", "TSPGenerator"), "cvrp": ("rl4co.envs.routing.cvrp.generator", "CVRPGenerator"),
+    "op": ("rl4co.envs.routing.op.generator", "OPGenerator"), "pctsp": ("rl4co.envs.routing.pctsp.generator", "PCTSPGenerator"),
+    "pdp": ("rl4co.envs.routing.pdp.generator", "PDPGenerator"), "mtsp": ("rl4co.envs.routing.mtsp.generator", "MTSPGenerator"),
+    "svrp": ("rl4co.envs.routing.svrp.generator", "SVRPGenerator"), "atsp": ("rl4co.envs.routing.atsp.generator", "ATSPGenerator"),
+    "smtwtp": ("rl4co.envs.scheduling.smtwtp.generator", "SMTWTPGenerator"), "ffsp": ("rl4co.envs.scheduling.ffsp.generator", "FFSPGenerator"),
+    "flp": ("rl4co.envs.graph.flp.generator", "FLPGenerator"), "mcp": ("rl4co.envs.graph.mcp.generator", "MCPGenerator"),
+    "cvrptw": ("rl4co.envs.routing.cvrptw.generator", "CVRPTWGenerator"), "mtvrp": ("rl4co.envs.routing.mtvrp.generator", "MTVRPGenerator"),
+    "fjsp": ("rl4co.envs.scheduling.fjsp.generator", "FJSPGenerator"), "jssp": ("rl4co.envs.scheduling.jssp.generator", "JSSPGenerator"),
+    "mdcpdp": ("rl4co.envs.routing.mdcpdp.generator", "MDCPDPGenerator"),
+}
+MTVRP_PRESETS = {"cvrp": "", "ovrp": "O", "vrpb": "B", "vrpl": "L", "vrptw": "TW", "ovrptw": "OTW", "ovrpb": "OB", "ovrpl": "OL", "vrpbl": "BL", "vrpbtw": "BTW", "vrpltw": "LTW",
+                 "ovrpbl": "OBL", "ovrpbtw": "OBTW", "ovrpltw": "OLTW", "vrpbltw": "BLTW", "ovrpbltw": "OBLTW"}
+
+
+def make_generator(w, name, params):
+    mod, cls = GENERATORS[name]
+    return getattr(w.load(mod), cls)(**params)
+
+
+def call_generator(name, g, B):
+    return g(B) if name == "mcp" else g([B])
+
+
+def props(name, g, td, B, params):
+    """[(label, condition)]; conditions are Python bools or solver terms"""
+    out = []
+
+    def P(nm, cond):
+        out.append((nm, cond))
+
+    n = params.get("num_loc", getattr(g, "num_loc", 3))
+    if name == "tsp":
+        P("keys / shapes / dtypes", _shape(td, "locs", (B, n, 2), T.float32))
+        P("coordinates within [min_loc, max_loc]", _in(td["locs"], g.min_loc, g.max_loc))
+    elif name == "cvrp":
+        P("keys / shapes / dtypes", _shape(td, "locs", (B, n, 2), T.float32) and _shape(td, "depot", (B, 2), T.float32) and _shape(td, "demand", (B, n), T.float32) and _shape(td, "capacity", (B, 1)))
+        P("coordinates within bounds", s_and(_in(td["locs"], g.min_loc, g.max_loc), _in(td["depot"], g.min_loc, g.max_loc)))
+        cap = g.capacity
+        P("demand is an integer in [min_demand, max_demand] divided by the capacity, never above the vehicle capacity",
+          all_([s_and(any_([eq(T.s_mul(x, cap), float(k)) for k in range(g.min_demand, g.max_demand + 1)]), s_and(gt(x, 0), le(x, g.vehicle_capacity))) for x in _vals(td["demand"])]))
+        P("capacity column holds the capacity used for normalisation", all_([eq(x, cap) for x in _vals(td["capacity"])]))
+    elif name == "op":
+        P("keys / shapes", _shape(td, "locs", (B, n, 2)) and _shape(td, "depot", (B, 2)) and _shape(td, "prize", (B, n)) and _shape(td, "max_length", (B,)))
+        P("coordinates within bounds", s_and(_in(td["locs"], g.min_loc, g.max_loc), _in(td["depot"], g.min_loc, g.max_loc)))
+        P("prizes in (0, 1]", all_([s_and(gt(x, 0), le(x, 1)) for x in _vals(td["prize"])]))
+        P("max_length positive", all_([gt(x, 0) for x in _vals(td["max_length"])]))
+    elif name == "pctsp":
+        P("keys / shapes", all(_shape(td, k, (B, n)) for k in ("penalty", "deterministic_prize", "stochastic_prize")) and _shape(td, "locs", (B, n, 2)) and _shape(td, "depot", (B, 2)))
+        P("prizes and penalties non-negative", all_([ge(x, 0) for k in ("penalty", "deterministic_prize", "stochastic_prize") for x in _vals(td[k])]))
+        P("deterministic prize <= 4/n each (expected total prize of all nodes can reach the requirement)", all_([le(x, 4.0 / n) for x in _vals(td["deterministic_prize"])]))
+        P("penalties <= penalty_factor * 3 / n each", all_([le(x, g.penalty_factor * 3.0 / n) for x in _vals(td["penalty"])]) if hasattr(g, "penalty_factor") else True)
+    elif name == "pdp":
+        nn = g.num_loc
+        P("number of locations is even (pickups paired with deliveries)", nn % 2 == 0 and _shape(td, "locs", (B, nn, 2)) and _shape(td, "depot", (B, 2)))
+        P("coordinates within bounds", s_and(_in(td["locs"], g.min_loc, g.max_loc), _in(td["depot"], g.min_loc, g.max_loc)))
+    elif name == "mdcpdp":
+        nn, nd = g.num_loc, g.num_agents
+        P("keys / shapes: depots first, then an even number of pickups+deliveries", nn % 2 == 0 and _shape(td, "locs", (B, nn, 2)) and "depot" in td.keys() and tuple(td["depot"].shape)[-2:] == (nd, 2))
+        P("coordinates within bounds", s_and(_in(td["locs"], g.min_loc, g.max_loc), _in(td["depot"], g.min_loc, g.max_loc)))
+        if "capacity" in td.keys():
+            P("vehicle capacity within [min_capacity, max_capacity] and >= 1 (a pickup can always be loaded)", all_([s_and(ge(x, max(1, g.min_capacity)), le(x, g.max_capacity)) for x in _vals(td["capacity"])]))
+    elif name == "mtsp":
+        P("keys / shapes", _shape(td, "locs", (B, n, 2)) and _shape(td, "num_agents", (B,), T.int64))
+        P("coordinates within bounds", _in(td["locs"], g.min_loc, g.max_loc))
+        P("number of agents within [min_num_agents, max_num_agents]", _in(td["num_agents"], g.min_num_agents, g.max_num_agents))
+    elif name == "svrp":
+        K = g.num_tech
+        P("keys / shapes", _shape(td, "techs", (B, K, 1)) and _shape(td, "skills", (B, n, 1)) and _shape(td, "locs", (B, n, 2)) and _shape(td, "depot", (B, 2)))
+        P("technician levels ascending within [min_skill, max_skill]", all_([s_and(_in(td["techs"], g.min_skill, g.max_skill), all_([le(td["techs"].a[b, k, 0], td["techs"].a[b, k + 1, 0]) for k in range(K - 1)])) for b in range(B)]))
+        P("every customer can be served by the most skilled technician", all_([s_and(ge(td["skills"].a[b, j, 0], 0), le(td["skills"].a[b, j, 0], td["techs"].a[b, K - 1, 0])) for b in range(B) for j in range(n)]))
+    elif name == "atsp":
+        C = td["cost_matrix"].a
+        P("shape", _shape(td, "cost_matrix", (B, n, n)))
+        P("non-negative costs, zero diagonal", all_([s_and(ge(C[b, i, j], 0), (eq(C[b, i, i], 0))) for b in range(B) for i in range(n) for j in range(n)]))
+        if g.tmat_class:
+            P("triangle inequality C[i][j] <= C[i][k] + C[k][j] (tmat_class)", all_([le(C[b, i, j], T.s_add(C[b, i, k], C[b, k, j])) for b in range(B) for i in range(n) for j in range(n) for k in range(n)]))
+    elif name == "smtwtp":
+        nj = g.num_job
+        P("keys / shapes", all(_shape(td, k, (B, nj + 1)) for k in ("job_due_time", "job_weight", "job_process_time")))
+        P("dummy start job (index 0) has zero due time / weight / processing time", all_([eq(td[k].a[b, 0], 0) for k in ("job_due_time", "job_weight", "job_process_time") for b in range(B)]))
+        P("values non-negative", all_([ge(x, 0) for k in ("job_due_time", "job_weight", "job_process_time") for x in _vals(td[k])]))
+        P("real jobs: processing time and weight within the configured ranges", all_([s_and(s_and(ge(td["job_process_time"].a[b, j], g.min_process_time), le(td["job_process_time"].a[b, j], g.max_process_time)),
+                                                                                   s_and(ge(td["job_weight"].a[b, j], g.min_job_weight), le(td["job_weight"].a[b, j], g.max_job_weight))) for b in range(B) for j in range(1, nj + 1)]))
+    elif name == "ffsp":
+        P("shape", _shape(td, "run_time", (B, g.num_job, g.num_machine_total)))
+        P("run times within [min_time, max_time) and positive", s_and(_in(td["run_time"], g.min_time, g.max_time, strict_hi=True), all_([ge(x, 1) for x in _vals(td["run_time"])])))
+    elif name == "flp":
+        P("keys / shapes", _shape(td, "locs", (B, n, 2)) and _shape(td, "orig_distances", (B, n, n)) and _shape(td, "distances", (B, n)) and _shape(td, "chosen", (B, n), T.bool_) and _shape(td, "to_choose", (B,), T.int64))
+        P("nothing chosen initially, quota as configured and not above the number of locations", s_and(all_([s_not(x) for x in _vals(td["chosen"])]), all_([s_and(eq(x, g.to_choose), le(x, n)) for x in _vals(td["to_choose"])])))
+        D = td["orig_distances"].a
+        P("orig_distances is symmetric with zero diagonal", all_([s_and(eq(D[b, i, j], D[b, j, i]), eq(D[b, i, i], 0)) for b in range(B) for i in range(n) for j in range(n)]))
+        P("coordinates within bounds", _in(td["locs"], g.min_loc, g.max_loc))
+    elif name == "mcp":
+        ns, ni = g.num_sets, g.num_items
+        ok = _shape(td, "weights", (B, ni)) and _shape(td, "n_sets_to_choose", (B, 1)) and "membership" in td.keys() and tuple(td["membership"].shape[:2]) == (B, ns)
+        P("keys / shapes", ok)
+        if ok:
+            M = td["membership"].a
+            P("membership ids are integers in [0, num_items]; non-zero ids distinct within a set", all_([s_and(s_and(ge(M[b, s, p], 0), le(M[b, s, p], ni)), all_([s_or(eq(M[b, s, p], 0), s_not(eq(M[b, s, p], M[b, s, q]))) for q in range(p + 1, M.shape[2])])) for b in range(B) for s in range(ns) for p in range(M.shape[2])]))
+            P("weights within [min_weight, max_weight]", _in(td["weights"], g.min_weight, g.max_weight))
+            P("quota as configured and not above the number of sets", all_([s_and(eq(x, g.n_sets_to_choose), le(x, ns)) for x in _vals(td["n_sets_to_choose"])]))
+    elif name == "cvrptw":
+        tw, dur = td["time_windows"].a, td["durations"].a
+        scale = g.max_time if g.scale else 1.0
+        P("keys / shapes", _shape(td, "time_windows", (B, n + 1, 2)) and _shape(td, "durations", (B, n + 1)))
+        X0, Y0 = td["depot"].a[:, 0], td["depot"].a[:, 1]
+        conds = []
+        for b in range(B):
+            conds.append(s_and(eq(tw[b, 0, 0], 0), eq(T.s_mul(tw[b, 0, 1], scale), g.max_time)))
+            for j in range(1, n + 1):
+                d0 = norm2(T.s_mul(T.s_sub(X0[b], td["locs"].a[b, j - 1, 0]), scale), T.s_mul(T.s_sub(Y0[b], td["locs"].a[b, j - 1, 1]), scale))  # in time units
+                e, l, s_ = T.s_mul(tw[b, j, 0], scale), T.s_mul(tw[b, j, 1], scale), T.s_mul(dur[b, j], scale)
+                conds.append(s_and(s_and(ge(e, 0), lt(e, l)), s_and(ge(s_, 0), s_and(le(d0, l), le(T.s_add(T.s_add(l, s_), d0), g.max_time)))))
+        P("windows ordered, non-negative, reachable from the depot and leaving time to return before the depot closes", all_(conds))
+    elif name == "mtvrp":
+        keys = ("locs", "demand_backhaul", "demand_linehaul", "distance_limit", "time_windows", "service_time", "vehicle_capacity", "capacity_original", "open_route", "speed")
+        P("documented keys present", all(k in td.keys() for k in keys))
+        preset = params.get("variant_preset")
+        want = MTVRP_PRESETS.get(preset)
+        dl, db = td["demand_linehaul"].a, td["demand_backhaul"].a
+        nn = dl.shape[1]  # depot column first
+        P("depot has no demand; each customer is either linehaul or backhaul; demands within (0, capacity]",
+          all_([s_and(s_and(eq(dl[b, 0], 0), eq(db[b, 0], 0)), all_([s_and(s_or(eq(dl[b, j], 0), eq(db[b, j], 0)), s_and(gt(T.s_add(dl[b, j], db[b, j]), TOL[0] * 4), le(T.s_add(dl[b, j], db[b, j]), 1))) for j in range(1, nn)])) for b in range(B)]))
+        tw, st_, lim, spd = td["time_windows"].a, td["service_time"].a, td["distance_limit"].a, td["speed"].a
+        conds, lconds = [], []
+        for b in range(B):
+            conds.append(s_and(eq(tw[b, 0, 0], 0), s_and(eq(st_[b, 0], 0), s_or(T.s_isinf(tw[b, 0, 1]), eq(tw[b, 0, 1], g.max_time)))))
+            for j in range(1, nn):
+                d0 = norm2(T.s_sub(td["locs"].a[b, 0, 0], td["locs"].a[b, j, 0]), T.s_sub(td["locs"].a[b, 0, 1], td["locs"].a[b, j, 1]))
+                e, l, sv = tw[b, j, 0], tw[b, j, 1], st_[b, j]
+                fin = T.s_isfinite(l)
+                tt = T.s_div(d0, spd[b, 0])
+                conds.append(s_or(s_and(s_not(fin), s_and(eq(e, 0), eq(sv, 0))),
+                                  s_and(fin, s_and(s_and(ge(e, 0), lt(e, l)), s_and(ge(sv, 0), s_and(le(tt, l), le(T.s_add(T.s_add(l, sv), tt), g.max_time)))))))
+                lconds.append(s_or(T.s_isinf(lim[b, 0]), le(T.s_mul(d0, 2), lim[b, 0])))
+        P("time windows: either absent ([0, inf], no service) or ordered, reachable from the depot and leaving time to serve and return before max_time", all_(conds))
+        P("distance limit: infinite or large enough to visit every customer alone (2 * d(depot, j) <= limit)", all_(lconds))
+        if want is not None:
+            O_, TW_, L_, B_ = "O" in want, "TW" in want, "L" in want.replace("TW", ""), "B" in want
+            P(f"preset {preset}: open_route flag", all_([eq(x, O_) if not isinstance(x, bool) else x == O_ for x in _vals(td["open_route"])]))
+            P(f"preset {preset}: distance limit {'finite' if L_ else 'infinite'}", all_([(T.s_isfinite(x) if L_ else T.s_isinf(x)) for x in _vals(td["distance_limit"])]))
+            P(f"preset {preset}: time windows {'present' if TW_ else 'absent ([0, inf], no service time)'}",
+              all_([(T.s_isfinite(td["time_windows"].a[b, j, 1]) if TW_ else s_and(T.s_isinf(td["time_windows"].a[b, j, 1]), eq(td["service_time"].a[b, j], 0))) for b in range(B) for j in range(1, td["time_windows"].shape[1])]))
+            if not B_:
+                P(f"preset {preset}: no backhaul demand", all_([eq(x, 0) for x in _vals(td["demand_backhaul"])]))
+    elif name in ("fjsp", "jssp"):
+        nj, nm = g.num_jobs, g.num_mas
+        PT, pad = td["proc_times"].a, td["pad_mask"].a
+        nops = PT.shape[2]
+        P("keys / shapes", _shape(td, "start_op_per_job", (B, nj)) and _shape(td, "end_op_per_job", (B, nj)) and tuple(PT.shape) == (B, nm, nops) and tuple(pad.shape) == (B, nops))
+        so, eo = td["start_op_per_job"].a, td["end_op_per_job"].a
+        P("jobs partition the operations: start of job 0 is 0, each job starts right after the previous one ends, ends >= starts",
+          all_([s_and(eq(so[b, 0], 0), all_([s_and(le(so[b, j], eo[b, j]), (eq(so[b, j], T.s_add(eo[b, j - 1], 1)) if j else True)) for j in range(nj)])) for b in range(B)]))
+        P("padding mask marks exactly the operations after the last job's end", all_([T.s_eq(pad[b, o], T.s_gt(o, eo[b, nj - 1])) for b in range(B) for o in range(nops)]))
+        P("every real operation is eligible on at least one machine, with processing times in [min, max]; padded operations on none",
+          all_([s_or(s_and(pad[b, o], all_([eq(PT[b, m, o], 0) for m in range(nm)])),
+                     s_and(s_not(pad[b, o]), s_and(any_([gt(PT[b, m, o], 0) for m in range(nm)]), all_([s_or(eq(PT[b, m, o], 0), s_and(ge(PT[b, m, o], g.min_processing_time), le(PT[b, m, o], g.max_processing_time))) for m in range(nm)]))))
+                for b in range(B) for o in range(nops)]))
+        if name == "jssp":
+            P("JSSP: every real operation is eligible on exactly one machine", all_([s_or(pad[b, o], T.s_eq(sum_int([gt(PT[b, m, o], 0) for m in range(nm)]), 1)) for b in range(B) for o in range(nops)]))
+    else:
+        raise ValueError(name)
+    return out
+
+
+def sum_int(conds):
+    tot = 0
+    for c in conds:
+        tot = T.s_add(tot, T.s_where(c, 1, 0))
+    return tot
 
 
 def gen_job(job_id, name, params=None, B=2, source_filter=None):
@@ -39,149 +253,57 @@ def gen_job(job_id, name, params=None, B=2, source_filter=None):
     ctx.stubs.add("samplers (rand, randint, Uniform/Normal.sample, randperm, multinomial): fresh variables constrained to the documented support (every outcome)")
 
     def cexb(E_, neg):
+        if E_.check(neg) != z3.sat:
+            return []
+        m = E_.model()
+        draws = []
+        for kind, t in T.RANDOM_LOG:
+            vals = [core.model_value(m, x) for x in t.a.reshape(-1)]
+            draws.append({"kind": kind, "shape": list(t.a.shape), "values": [str(v) for v in vals]})
         return [{"kind": "script", "path": core.ROOT + "/vf/torch_side", "module": "gen_side", "func": "run_gen", "model_kind": "plain", "mode": "C18",
-                 "params": {"name": name, "params": params, "B": B}}]
-
-    def P(nm, cond):
-        ctx.prove(E, f"[{name} {params}] {nm}", cond, cexb)
+                 "params": {"name": name, "params": params, "B": B, "draws": draws}}]
 
     def harness():
         DS.FULL_SANDWICH = True
-        n = params.get("num_loc", 3)
-        if name == "tsp":
-            g = w.load("rl4co.envs.routing.tsp.generator").TSPGenerator(**params)
-            td = g([B])
-            P("keys / shapes / dtypes", _shape(td, "locs", (B, n, 2), T.float32))
-            P("coordinates within [min_loc, max_loc]", _in(td["locs"], g.min_loc, g.max_loc))
-        elif name == "cvrp":
-            g = w.load("rl4co.envs.routing.cvrp.generator").CVRPGenerator(**params)
-            td = g([B])
-            P("keys / shapes / dtypes", _shape(td, "locs", (B, n, 2), T.float32) and _shape(td, "depot", (B, 2), T.float32) and _shape(td, "demand", (B, n), T.float32) and _shape(td, "capacity", (B, 1)))
-            P("coordinates within bounds", s_and(_in(td["locs"], g.min_loc, g.max_loc), _in(td["depot"], g.min_loc, g.max_loc)))
-            cap = g.capacity
-            P("demand is an integer in [min_demand, max_demand] divided by the capacity, never above the vehicle capacity",
-              all_([s_and(any_([s_eq(x, k / cap) if False else s_eq(T.s_mul(x, cap), float(k)) for k in range(g.min_demand, g.max_demand + 1)]), s_and(s_gt(x, 0), s_le(x, g.vehicle_capacity))) for x in _vals(td["demand"])]))
-            P("capacity column holds the capacity used for normalisation", all_([s_eq(x, cap) for x in _vals(td["capacity"])]))
-        elif name == "op":
-            g = w.load("rl4co.envs.routing.op.generator").OPGenerator(**params)
-            td = g([B])
-            P("keys / shapes", _shape(td, "locs", (B, n, 2)) and _shape(td, "depot", (B, 2)) and _shape(td, "prize", (B, n)) and _shape(td, "max_length", (B,)))
-            P("prizes in (0, 1]", all_([s_and(s_gt(x, 0), s_le(x, 1)) for x in _vals(td["prize"])]))
-            P("max_length positive", all_([s_gt(x, 0) for x in _vals(td["max_length"])]))
-        elif name == "pctsp":
-            g = w.load("rl4co.envs.routing.pctsp.generator").PCTSPGenerator(**params)
-            td = g([B])
-            P("keys / shapes", all(_shape(td, k, (B, n)) for k in ("penalty", "deterministic_prize", "stochastic_prize")) and _shape(td, "locs", (B, n, 2)) and _shape(td, "depot", (B, 2)))
-            P("prizes and penalties non-negative", all_([s_ge(x, 0) for k in ("penalty", "deterministic_prize", "stochastic_prize") for x in _vals(td[k])]))
-            P("expected total prize of all nodes can reach the requirement: deterministic prize <= 4/n each", all_([s_le(x, 4.0 / n) for x in _vals(td["deterministic_prize"])]))
-        elif name == "pdp":
-            g = w.load("rl4co.envs.routing.pdp.generator").PDPGenerator(**params)
-            td = g([B])
-            nn = g.num_loc
-            P("number of locations is even (pickups paired with deliveries)", nn % 2 == 0 and _shape(td, "locs", (B, nn, 2)) and _shape(td, "depot", (B, 2)))
-            P("coordinates within bounds", _in(td["locs"], g.min_loc, g.max_loc))
-        elif name == "mtsp":
-            g = w.load("rl4co.envs.routing.mtsp.generator").MTSPGenerator(**params)
-            td = g([B])
-            P("keys / shapes", _shape(td, "locs", (B, n, 2)) and _shape(td, "num_agents", (B,), T.int64))
-            P("number of agents within [min_num_agents, max_num_agents]", _in(td["num_agents"], g.min_num_agents, g.max_num_agents))
-        elif name == "svrp":
-            g = w.load("rl4co.envs.routing.svrp.generator").SVRPGenerator(**params)
-            td = g([B])
-            K = g.num_tech
-            P("keys / shapes", _shape(td, "techs", (B, K, 1)) and _shape(td, "skills", (B, n, 1)) and _shape(td, "locs", (B, n, 2)) and _shape(td, "depot", (B, 2)))
-            P("technician levels ascending within [min_skill, max_skill]", all_([s_and(_in(td["techs"], g.min_skill, g.max_skill), all_([s_le(td["techs"].a[b, k, 0], td["techs"].a[b, k + 1, 0]) for k in range(K - 1)])) for b in range(B)]))
-            P("every customer can be served by the most skilled technician", all_([s_and(s_ge(td["skills"].a[b, j, 0], 0), s_le(td["skills"].a[b, j, 0], td["techs"].a[b, K - 1, 0])) for b in range(B) for j in range(n)]))
-        elif name == "atsp":
-            g = w.load("rl4co.envs.routing.atsp.generator").ATSPGenerator(**params)
-            td = g([B])
-            C = td["cost_matrix"].a
-            P("shape", _shape(td, "cost_matrix", (B, n, n)))
-            P("non-negative costs, zero diagonal", all_([s_and(s_ge(C[b, i, j], 0), (s_eq(C[b, i, i], 0))) for b in range(B) for i in range(n) for j in range(n)]))
-            if g.tmat_class:
-                P("triangle inequality C[i][j] <= C[i][k] + C[k][j] (tmat_class)", all_([s_le(C[b, i, j], T.s_add(C[b, i, k], C[b, k, j])) for b in range(B) for i in range(n) for j in range(n) for k in range(n)]))
-        elif name == "smtwtp":
-            g = w.load("rl4co.envs.scheduling.smtwtp.generator").SMTWTPGenerator(**params)
-            td = g([B])
-            nj = g.num_job
-            P("keys / shapes", all(_shape(td, k, (B, nj + 1)) for k in ("job_due_time", "job_weight", "job_process_time")))
-            P("dummy start job (index 0) has zero due time / weight / processing time", all_([s_eq(td[k].a[b, 0], 0) for k in ("job_due_time", "job_weight", "job_process_time") for b in range(B)]))
-            P("values non-negative", all_([s_ge(x, 0) for k in ("job_due_time", "job_weight", "job_process_time") for x in _vals(td[k])]))
-        elif name == "ffsp":
-            g = w.load("rl4co.envs.scheduling.ffsp.generator").FFSPGenerator(**params)
-            td = g([B])
-            P("shape", _shape(td, "run_time", (B, g.num_job, g.num_machine_total)))
-            P("run times within [min_time, max_time) and positive", s_and(_in(td["run_time"], g.min_time, g.max_time, strict_hi=True), all_([s_ge(x, 1) for x in _vals(td["run_time"])])))
-        elif name == "flp":
-            g = w.load("rl4co.envs.graph.flp.generator").FLPGenerator(**params)
-            td = g([B])
-            P("keys / shapes", _shape(td, "locs", (B, n, 2)) and _shape(td, "orig_distances", (B, n, n)) and _shape(td, "distances", (B, n)) and _shape(td, "chosen", (B, n), T.bool_) and _shape(td, "to_choose", (B,), T.int64))
-            P("nothing chosen initially, quota as configured and not above the number of locations", s_and(all_([s_not(x) for x in _vals(td["chosen"])]), all_([s_and(s_eq(x, g.to_choose), s_le(x, n)) for x in _vals(td["to_choose"])])))
-            D = td["orig_distances"].a
-            P("orig_distances is symmetric with zero diagonal", all_([s_and(s_eq(D[b, i, j], D[b, j, i]), s_eq(D[b, i, i], 0)) for b in range(B) for i in range(n) for j in range(n)]))
-        elif name == "mcp":
-            g = w.load("rl4co.envs.graph.mcp.generator").MCPGenerator(**params)
-            td = g(B)
-            ns, ni = g.num_sets, g.num_items
-            ok = _shape(td, "weights", (B, ni)) and _shape(td, "n_sets_to_choose", (B, 1)) and "membership" in td.keys() and tuple(td["membership"].shape[:2]) == (B, ns)
-            P("keys / shapes", ok)
-            if ok:
-                M = td["membership"].a
-                P("membership ids are integers in [0, num_items]; non-zero ids distinct within a set", all_([s_and(s_and(s_ge(M[b, s, p], 0), s_le(M[b, s, p], ni)), all_([s_or(s_eq(M[b, s, p], 0), T.s_ne(M[b, s, p], M[b, s, q])) for q in range(p + 1, M.shape[2])])) for b in range(B) for s in range(ns) for p in range(M.shape[2])]))
-                P("weights within [min_weight, max_weight]", _in(td["weights"], g.min_weight, g.max_weight))
-        elif name == "cvrptw":
-            from symtorch import scalar as SC
-
-            # (upper_bound - dist) * rand: the product with a sampler value in [0,1) is an opaque function bounded by its other factor
+        del T.RANDOM_LOG[:]
+        opaque = name == "cvrptw"
+        if opaque:
+            # (upper_bound - dist) * rand: product with a sampler value in [0,1) = opaque function bounded by its other factor
             SC.OPAQUE_MUL[0] = True
             SC.MULC_APPS.clear()
-            g = w.load("rl4co.envs.routing.cvrptw.generator").CVRPTWGenerator(**params)
-            orig_rand = T.rand
+            SC.UNIT_PRED[0] = lambda t_: z3.is_const(t_) and str(t_).startswith("rand!")
+            ctx.stubs.add("symbolic*rand products in the CVRPTW generator: opaque function with 0 <= a*t < a for a > 0 (t in [0,1))")
+        if name == "fjsp":
+            import sys
 
-            def rand_with_bounds(*a, **k):
-                t = orig_rand(*a, **k)
+            def split_means(t, lo, hi):
+                # proc_time_means feeds `x % (high_bound - low_bound)`: a symbolic divisor; case-split the (small-range) means instead
+                if sys._getframe(2).f_code.co_name == "_simulate_processing_times" and t.a.ndim == 2 and hi - lo <= 4:
+                    for pos in np.ndindex(*t.a.shape):
+                        t.a[pos] = E.concretize_int(t.a[pos], lo, hi)
                 return t
 
-            td = g([B])
+            T.RANDINT_HOOK = split_means
+        try:
+            g = make_generator(w, name, params)
+            try:
+                td = call_generator(name, g, B)
+            except AssertionError as e:
+                ctx.prove(E, f"[{name} {params}] the generator rejects its own sample ({str(e)[:80]})", False, cexb)
+                raise explore.PathAbort()
+            except (ValueError, RuntimeError, IndexError, TypeError, KeyError) as e:
+                # torch raises RuntimeError/IndexError where the stand-in (numpy) raises ValueError/IndexError
+                ctx.prove(E, f"[{name} {params}] the generator must not raise ({type(e).__name__}: {str(e)[:80]})", False, cexb)
+                raise explore.PathAbort()
+        finally:
             SC.OPAQUE_MUL[0] = False
-            for ax in SC.unit_factor_axioms(lambda t_: z3.is_const(t_) and str(t_).startswith("rand!")):
-                E.assume(ax)
-            ctx.stubs.add("symbolic*rand products in the CVRPTW generator: opaque function with |a*t| <= |a|, sign of a (t in [0,1))")
-            tw, dur = td["time_windows"].a, td["durations"].a
-            scale = g.max_time if g.scale else 1.0
-            P("keys / shapes", _shape(td, "time_windows", (B, n + 1, 2)) and _shape(td, "durations", (B, n + 1)))
-            X0, Y0 = td["depot"].a[:, 0], td["depot"].a[:, 1]
-            conds = []
-            for b in range(B):
-                conds.append(s_and(s_eq(tw[b, 0, 0], 0), s_eq(T.s_mul(tw[b, 0, 1], scale) if g.scale else tw[b, 0, 1], g.max_time)))
-                for j in range(1, n + 1):
-                    d0 = DS.norm2(T.s_sub(X0[b], td["locs"].a[b, j - 1, 0]), T.s_sub(Y0[b], td["locs"].a[b, j - 1, 1]))
-                    e, l, s_ = tw[b, j, 0], tw[b, j, 1], dur[b, j]
-                    conds.append(s_and(s_and(s_ge(e, 0), s_lt(e, l)), s_and(s_ge(s_, 0), s_and(s_le(d0, T.s_mul(l, scale) if g.scale else l), s_le(T.s_add(T.s_add(l, s_), d0) if not g.scale else T.s_add(T.s_mul(T.s_add(l, s_), scale), d0), g.max_time)))))
-            P("windows ordered, non-negative, reachable from the depot and leaving time to return before the depot closes", all_(conds))
-        elif name == "mtvrp":
-            g = w.load("rl4co.envs.routing.mtvrp.generator").MTVRPGenerator(**params)
-            td = g([B])
-            env = w.load("rl4co.envs.routing.mtvrp.env").MTVRPEnv
-            keys = ("locs", "demand_backhaul", "demand_linehaul", "distance_limit", "time_windows", "service_time", "vehicle_capacity", "capacity_original", "open_route", "speed")
-            P("documented keys present", all(k in td.keys() for k in keys))
-            preset = params.get("variant_preset")
-            want = {"cvrp": "", "ovrp": "O", "vrpb": "B", "vrpl": "L", "vrptw": "TW", "ovrptw": "OTW", "ovrpb": "OB", "ovrpl": "OL", "vrpbl": "BL", "vrpbtw": "BTW", "vrpltw": "LTW",
-                    "ovrpbl": "OBL", "ovrpbtw": "OBTW", "ovrpltw": "OLTW", "vrpbltw": "BLTW", "ovrpbltw": "OBLTW"}.get(preset)
-            dl, db = td["demand_linehaul"].a, td["demand_backhaul"].a
-            P("depot has no demand; each customer is either linehaul or backhaul; demands within (0, capacity]",
-              all_([s_and(s_and(s_eq(dl[b, 0], 0), s_eq(db[b, 0], 0)), all_([s_and(s_or(s_eq(dl[b, j], 0), s_eq(db[b, j], 0)), s_and(s_gt(T.s_add(dl[b, j], db[b, j]), 0), s_le(T.s_add(dl[b, j], db[b, j]), 1))) for j in range(1, n + 1)])) for b in range(B)]))
-            if want is not None:
-                O_, TW_, L_, B_ = "O" in want, "TW" in want, "L" in want.replace("TW", ""), "B" in want
-                P(f"preset {preset}: open_route flag", all_([s_eq(x, O_) for x in _vals(td["open_route"])]))
-                P(f"preset {preset}: distance limit {'finite' if L_ else 'infinite'}", all_([(T.s_isfinite(x) if L_ else T.s_isinf(x)) for x in _vals(td["distance_limit"])]))
-                P(f"preset {preset}: time windows {'present' if TW_ else 'absent ([0, inf], no service time)'}",
-                  all_([(T.s_isfinite(td["time_windows"].a[b, j, 1]) if TW_ else s_and(T.s_isinf(td["time_windows"].a[b, j, 1]), s_eq(td["service_time"].a[b, j], 0))) for b in range(B) for j in range(1, n + 1)]))
-                if not B_:
-                    P(f"preset {preset}: no backhaul demand", all_([s_eq(x, 0) for x in _vals(td["demand_backhaul"])]))
-        else:
-            raise ValueError(name)
-        E.obligations = []
+            SC.UNIT_PRED[0] = None
+            T.RANDINT_HOOK = None
+        if E.obligations:
+            obs, E.obligations = E.obligations, []
+            ctx.prove(E, f"[{name} {params}] library preconditions ({len(obs)}: {obs[0][0]}, ...)", z3.And(*[_bool(c) for _, c in obs]), cexb)
+        for nm, cond in props(name, g, td, B, params):
+            ctx.prove(E, f"[{name} {params}] {nm}", cond, cexb)
         ctx.states += 1
         ctx.transitions += 1
 
@@ -191,9 +313,34 @@ def gen_job(job_id, name, params=None, B=2, source_filter=None):
         return ctx.result(E, w, status="inconclusive", error=str(e))
     finally:
         DS.FULL_SANDWICH = False
-        from symtorch import scalar as SC2
-
-        SC2.OPAQUE_MUL[0] = False
+        SC.OPAQUE_MUL[0] = False
+        SC.UNIT_PRED[0] = None
     if not ctx.obligations:
         return ctx.result(E, w, status="error", error="vacuous")
     return ctx.result(E, w)
+
+
+def check_concrete(name, params, B, td_json):
+    """evaluate the same predicates on the instance the REAL generator produced (replay); returns failing labels"""
+    from . import confirm as CF
+
+    w = world.make_world()
+    g = make_generator(w, name, params)
+    nan_keys = [k for k, v in td_json.items() if "nan" in list(CF.flat(v["data"]))]
+    if nan_keys:
+        return [f"generated instance contains NaN in {nan_keys}"]
+    td = CF.td_from_json(td_json, [B])
+    TOL[0] = 1e-5
+    try:
+        bad = []
+        for nm, cond in props(name, g, td, B, params):
+            if is_sym(cond):
+                cond = z3.simplify(cond)
+                if not (z3.is_true(cond) or z3.is_false(cond)):
+                    raise RuntimeError(f"predicate '{nm}' does not evaluate on the concrete instance: {str(cond)[:200]}")
+                cond = z3.is_true(cond)
+            if not cond:
+                bad.append(nm)
+        return bad
+    finally:
+        TOL[0] = 0.0
